@@ -1,1 +1,665 @@
-fn main() {}
+//! Sweeps of the client-side arithmetic (C05 C06 C14) through the real writer, a real segment
+//! file, the real ShmReader/ClockBoundClient and the public now(), under a virtual clock.
+//!
+//! clientsim sweep --prop C05|C06|C14 --seed N --count K --shard i/n --out f [--dump file]
+//! clientsim vectors --prop P --seed N --count K --dump file        (vectors for the C driver)
+
+use std::collections::BTreeMap;
+use std::io::Write;
+use std::panic::{catch_unwind, AssertUnwindSafe};
+use std::path::PathBuf;
+
+use clock_bound_client::{ClockBoundClient, ClockBoundErrorKind, ClockStatus};
+use clock_bound_shm::{ClockErrorBound, ShmWrite, ShmWriter};
+use vworld::serde_json::Value;
+use vworld::{arg_str, arg_u64, clock, json, parse_args, Rng};
+
+const NS: i128 = 1_000_000_000;
+/// 68 years in seconds: the "physically meaningful range" of the properties.
+const RANGE_S: i64 = 68 * 365 * 86400;
+
+#[derive(Debug, Clone, Copy, PartialEq)]
+pub struct Vector {
+    pub as_of: (i64, i64),
+    pub void_after: (i64, i64),
+    pub bound: i64,
+    pub drift: u32,
+    pub status: i32,
+    pub real: (i64, i64),
+    pub mono: (i64, i64),
+    /// Generator stratum, for the coverage table.
+    pub kind: &'static str,
+}
+
+#[derive(Debug, Clone, PartialEq)]
+pub enum Outcome {
+    Ok { earliest: (i64, i64), latest: (i64, i64), status: i32 },
+    Err { kind: String, errno: i32, detail: String },
+    Panic(String),
+}
+
+fn ns(t: (i64, i64)) -> i128 {
+    t.0 as i128 * NS + t.1 as i128
+}
+
+fn ts(n: i128) -> (i64, i64) {
+    (n.div_euclid(NS) as i64, n.rem_euclid(NS) as i64)
+}
+
+fn status_of(s: i32) -> ClockStatus {
+    match s {
+        1 => ClockStatus::Synchronized,
+        2 => ClockStatus::FreeRunning,
+        _ => ClockStatus::Unknown,
+    }
+}
+
+fn status_num(s: ClockStatus) -> i32 {
+    match s {
+        ClockStatus::Unknown => 0,
+        ClockStatus::Synchronized => 1,
+        ClockStatus::FreeRunning => 2,
+    }
+}
+
+impl Vector {
+    fn line(&self) -> String {
+        format!(
+            "{} {} {} {} {} {} {} {} {} {} {}",
+            self.as_of.0, self.as_of.1, self.void_after.0, self.void_after.1, self.bound, self.drift, self.status, self.real.0, self.real.1, self.mono.0, self.mono.1
+        )
+    }
+
+    fn to_json(&self) -> Value {
+        json!({"as_of": [self.as_of.0, self.as_of.1], "void_after": [self.void_after.0, self.void_after.1], "bound_nsec": self.bound, "max_drift_ppb": self.drift,
+               "status": self.status, "real": [self.real.0, self.real.1], "mono": [self.mono.0, self.mono.1], "kind": self.kind})
+    }
+}
+
+impl Outcome {
+    fn line(&self) -> String {
+        match self {
+            Outcome::Ok { earliest, latest, status } => format!("OK {} {} {} {} {}", earliest.0, earliest.1, latest.0, latest.1, status),
+            Outcome::Err { kind, errno, detail } => format!("ERR {} {} {}", kind, errno, if detail.is_empty() { "-" } else { detail }),
+            Outcome::Panic(m) => format!("PANIC {}", m.replace('\n', " ")),
+        }
+    }
+}
+
+// ------------------------------------------------------------------------------------ oracle
+
+/// What the properties require of one answer. Returns (property, signature, text) per failure.
+pub fn oracle(v: &Vector, o: &Outcome) -> Vec<(&'static str, String, String)> {
+    let mut bad = Vec::new();
+    let a = ns(v.as_of);
+    let m = ns(v.mono);
+    let r = ns(v.real);
+    let va = ns(v.void_after);
+    let blur = 1000i128;
+
+    if let Outcome::Panic(msg) = o {
+        bad.push(("C14", "panic".to_string(), format!("now() panicked: {}", msg)));
+        return bad;
+    }
+    // C14: malformed drift first, then causality.
+    if v.drift as i128 >= NS {
+        match o {
+            Outcome::Err { kind, .. } if kind == "SegmentMalformed" => {}
+            other => bad.push(("C14", "drift-not-rejected".to_string(), format!("max_drift_ppb {} >= 1e9 must yield the malformed-segment error, got {:?}", v.drift, other))),
+        }
+        return bad;
+    }
+    let breach_required = m < a - blur;
+    let breach_allowed = m <= a - blur;
+    match o {
+        Outcome::Err { kind, .. } if kind == "CausalityBreach" => {
+            if !breach_allowed {
+                bad.push(("C14", "spurious-causality-error".to_string(), format!("monotonic reading is {} ns after as_of minus the blur, yet the causality error was returned", m - (a - blur))));
+            }
+            return bad;
+        }
+        Outcome::Err { kind, errno, detail } => {
+            bad.push(("C14", format!("unexpected-error-{}", kind), format!("unexpected error {} errno {} detail {:?}", kind, errno, detail)));
+            return bad;
+        }
+        Outcome::Ok { .. } if breach_required => {
+            bad.push(("C14", "causality-not-detected".to_string(), format!("monotonic reading precedes as_of by {} ns (> blur) and an interval was returned", a - m)));
+            return bad;
+        }
+        _ => {}
+    }
+    let (e, l, st) = match o {
+        Outcome::Ok { earliest, latest, status } => (*earliest, *latest, *status),
+        _ => unreachable!(),
+    };
+    if e.1 < 0 || e.1 >= NS as i64 || l.1 < 0 || l.1 >= NS as i64 {
+        bad.push(("C05", "malformed-timespec".to_string(), format!("earliest {:?} latest {:?} are not normalised timespecs", e, l)));
+    }
+    let (en, ln) = (ns(e), ns(l));
+    // C05: order, symmetry, width.
+    if en > ln {
+        bad.push(("C05", "earliest-after-latest".to_string(), format!("earliest {} > latest {}", en, ln)));
+    }
+    if ln - r != r - en {
+        bad.push(("C05", "not-centred".to_string(), format!("interval [{}, {}] is not symmetric around the realtime reading {}", en, ln, r)));
+    }
+    let elapsed = if m >= a { m - a } else { 0 };
+    let prod = v.drift as i128 * elapsed; // exact, < 2^30 * 2^63
+    let fl = prod.div_euclid(NS);
+    let ce = (prod + NS - 1).div_euclid(NS);
+    let eps = (prod / NS) >> 50; // relative error of the three f64 roundings
+    let eps = eps + if prod / NS >= (1i128 << 50) { 1 } else { 0 };
+    let h = ln - r;
+    let lo = v.bound as i128 + fl - 1 - eps;
+    let hi = v.bound as i128 + ce + eps;
+    if h < lo {
+        bad.push(("C05", "too-narrow".to_string(), format!("half-width {} < bound {} + drift {} ppb x {} ns elapsed = {} (tolerance {} ns)", h, v.bound, v.drift, elapsed, v.bound as i128 + fl, 1 + eps)));
+    }
+    if h > hi {
+        bad.push(("C05", "too-wide".to_string(), format!("half-width {} > bound {} + drift {} ppb x {} ns elapsed = {} (tolerance {} ns)", h, v.bound, v.drift, elapsed, v.bound as i128 + ce, eps)));
+    }
+    // C06: status decision table (records whose void_after is at least 5 s after as_of).
+    if va >= a + 5 * NS {
+        let expected = if v.status == 0 {
+            0
+        } else if m < a + 5 * NS {
+            v.status
+        } else if m < va {
+            2
+        } else {
+            0
+        };
+        if st != expected {
+            let rank = |s: i32| match s { 1 => 2, 2 => 1, _ => 0 };
+            let sig = if rank(st) > rank(expected) { "status-too-strong" } else { "status-needlessly-degraded" };
+            bad.push(("C06", sig.to_string(), format!("stored status {}, mono - as_of = {} ns, void_after - as_of = {} ns: reported {} expected {}", v.status, m - a, va - a, st, expected)));
+        }
+    }
+    bad
+}
+
+// ------------------------------------------------------------------------------------ generators
+
+fn rand_ts(rng: &mut Rng) -> (i64, i64) {
+    let sec = match rng.below(8) {
+        0 => RANGE_S,
+        1 => -RANGE_S,
+        2 => 0,
+        3 => rng.range(-1000, 1000),
+        _ => rng.range(-RANGE_S, RANGE_S),
+    };
+    let nsec = match rng.below(6) {
+        0 => 0,
+        1 => 999_999_999,
+        2 => rng.range(0, 2000),
+        3 => rng.range(999_998_000, 999_999_999),
+        _ => rng.range(0, 999_999_999),
+    };
+    (sec, nsec)
+}
+
+fn clamp_ts(n: i128) -> i128 {
+    let lim = RANGE_S as i128 * NS;
+    n.clamp(-lim, lim + NS - 1)
+}
+
+fn rand_bound(rng: &mut Rng) -> i64 {
+    match rng.below(8) {
+        0 => 0,
+        1 => (1i64 << 60) - 1,
+        2 => rng.range(0, 1000),
+        _ => rng.magnitude(60) as i64 & ((1i64 << 60) - 1),
+    }
+}
+
+fn rand_drift(rng: &mut Rng) -> u32 {
+    match rng.below(10) {
+        0 => 0,
+        1 => 1,
+        2 => 1000,
+        3 => 50_000,
+        4 => 999_999_999,
+        5 => *rng.pick(&[500_000u32, 1_000_000, 2_000_000, 250_000_000, 500_000_000, 125, 8, 3]),
+        _ => rng.below(1_000_000_000) as u32,
+    }
+}
+
+fn gen_c05(rng: &mut Rng) -> Vec<Vector> {
+    let as_of = rand_ts(rng);
+    let a = ns(as_of);
+    let bound = rand_bound(rng);
+    let drift = rand_drift(rng);
+    let real = rand_ts(rng);
+    let status = rng.below(3) as i32;
+    let (elapsed, kind): (i128, &'static str) = match rng.below(10) {
+        0 => (0, "age-zero"),
+        1 => (-(rng.range(1, 999) as i128), "age-in-blur"),
+        2 => (1, "age-1ns"),
+        3 => (rng.range(1, 4_000_000) as i128, "age-sub-tick"),
+        4 => ((NS - as_of.1 as i128) + rng.range(-2, 2) as i128, "age-to-second-boundary"),
+        5 => (rng.range(1, 48) as i128 * 3600 * NS + rng.range(0, 999_999_999) as i128, "age-hours"),
+        6 => (2 * RANGE_S as i128 * NS, "age-136-years"),
+        7 => {
+            // Product with a fractional part just below / at / above an integer.
+            let d = drift.max(1) as i128;
+            let k = rng.range(1, 1_000_000) as i128;
+            ((k * NS + d - 1) / d + rng.range(-1, 1) as i128, "age-product-near-integer")
+        }
+        _ => (rng.magnitude(62) as i128, "age-random"),
+    };
+    let m = clamp_ts(a + elapsed);
+    // Keep the generated age when clamping moved mono: recompute nothing, the oracle uses mono.
+    let void_after = match rng.below(3) {
+        0 => (as_of.0.saturating_add(1000).min(RANGE_S), 0),
+        1 => ts(clamp_ts(a + 5 * NS + rng.magnitude(40) as i128)),
+        _ => rand_ts(rng),
+    };
+    let base = Vector { as_of, void_after, bound, drift, status, real, mono: ts(m), kind };
+    let mut out = vec![base];
+    // Monotone chain: the same record read later and later.
+    if rng.chance(1, 3) {
+        let mut cur = m;
+        for _ in 0..3 {
+            cur = clamp_ts(cur + rng.magnitude(50) as i128);
+            out.push(Vector { mono: ts(cur), kind: "chain", ..base });
+        }
+    }
+    out
+}
+
+fn gen_c06(rng: &mut Rng) -> Vec<Vector> {
+    let as_of = {
+        let mut t = rand_ts(rng);
+        t.0 = t.0.clamp(-RANGE_S + 10, RANGE_S - 200_000);
+        t
+    };
+    let a = ns(as_of);
+    let (va, va_kind) = match rng.below(4) {
+        0 => (a + 5 * NS, "va=5s"),
+        1 => (a + 5 * NS + 1, "va=5s+1"),
+        2 => ((as_of.0 as i128 + 1000) * NS, "va=daemon"),
+        _ => (a + 5 * NS + rng.magnitude(46) as i128, "va=random"),
+    };
+    let va = clamp_ts(va).max(a + 5 * NS);
+    let status = rng.below(3) as i32;
+    let off = rng.range(-1, 1) as i128;
+    let (m, region): (i128, &'static str) = match rng.below(9) {
+        0 => (a - 1000 + 1 + off.max(0), "blur-edge"),
+        1 => (a + off, "as_of"),
+        2 => (a + 5 * NS + off, "grace"),
+        3 => (va + off, "void_after"),
+        4 => (a + rng.range(0, 4_999_999_999) as i128, "in-grace"),
+        5 => {
+            if va - (a + 5 * NS) > 1 {
+                (a + 5 * NS + rng.range(0, ((va - a - 5 * NS - 1).min(i64::MAX as i128)) as i64) as i128, "in-freerun")
+            } else {
+                (a + 5 * NS - 1, "grace")
+            }
+        }
+        6 => (va + rng.magnitude(50) as i128, "beyond-void"),
+        7 => (a - rng.range(0, 999) as i128, "in-blur"),
+        _ => (a + rng.magnitude(56) as i128, "random"),
+    };
+    let m = clamp_ts(m);
+    let kind: &'static str = Box::leak(format!("s{}|{}|{}|{:+}", status, region, va_kind, off).into_boxed_str());
+    vec![Vector { as_of, void_after: ts(va), bound: rand_bound(rng), drift: rand_drift(rng), status, real: rand_ts(rng), mono: ts(m), kind }]
+}
+
+fn gen_c14(rng: &mut Rng) -> Vec<Vector> {
+    let as_of = rand_ts(rng);
+    let a = ns(as_of);
+    let (m, mk): (i128, &str) = match rng.below(8) {
+        0 => (a - 1000 + rng.range(-2, 2) as i128, "blur-edge"),
+        1 => (a - rng.range(1001, 5_000_000_000) as i128, "breach"),
+        2 => (-(RANGE_S as i128) * NS, "mono-min"),
+        3 => (RANGE_S as i128 * NS + NS - 1, "mono-max"),
+        4 => (a - rng.range(0, 1000) as i128, "in-blur"),
+        5 => (a - rng.magnitude(62) as i128, "deep-breach"),
+        _ => (a + rng.magnitude(62) as i128, "after"),
+    };
+    let m = clamp_ts(m);
+    let (drift, dk): (u32, &str) = match rng.below(8) {
+        0 => (999_999_999, "drift-max-valid"),
+        1 => (1_000_000_000, "drift-1e9"),
+        2 => (1_000_000_001, "drift-1e9+1"),
+        3 => (u32::MAX, "drift-u32max"),
+        4 => (1_000_000_000 + rng.below(3_294_967_295) as u32, "drift-invalid-random"),
+        _ => (rand_drift(rng), "drift-valid"),
+    };
+    let bound = match rng.below(4) {
+        0 => (1i64 << 60) - 1,
+        1 => 0,
+        _ => rand_bound(rng),
+    };
+    let real = match rng.below(4) {
+        0 => (RANGE_S, 999_999_999),
+        1 => (-RANGE_S, 0),
+        _ => rand_ts(rng),
+    };
+    let kind: &'static str = Box::leak(format!("{}|{}", mk, dk).into_boxed_str());
+    vec![Vector { as_of, void_after: rand_ts(rng), bound, drift, status: rng.below(3) as i32, real, mono: ts(m), kind }]
+}
+
+pub fn generate(prop: &str, rng: &mut Rng) -> Vec<Vector> {
+    match prop {
+        "C05" => gen_c05(rng),
+        "C06" => gen_c06(rng),
+        "C14" => gen_c14(rng),
+        // C17 and others: a blend of all generators.
+        _ => match rng.below(3) {
+            0 => gen_c05(rng),
+            1 => gen_c06(rng),
+            _ => gen_c14(rng),
+        },
+    }
+}
+
+// ------------------------------------------------------------------------------------ driver
+
+struct Rig {
+    dir: PathBuf,
+    writer: ShmWriter,
+    client: ClockBoundClient,
+}
+
+impl Rig {
+    fn new() -> Rig {
+        let dir = PathBuf::from(format!("/dev/shm/cbverif-client.{}", std::process::id()));
+        std::fs::create_dir_all(&dir).unwrap();
+        let path = dir.join("shm");
+        let mut writer = ShmWriter::new(&path).expect("ShmWriter::new");
+        writer.write(&ClockErrorBound::default());
+        let client = ClockBoundClient::new_with_path(path.to_str().unwrap()).expect("client");
+        Rig { dir, writer, client }
+    }
+
+    fn eval(&mut self, v: &Vector) -> Outcome {
+        let ceb = ClockErrorBound::new(
+            libc::timespec { tv_sec: v.as_of.0, tv_nsec: v.as_of.1 },
+            libc::timespec { tv_sec: v.void_after.0, tv_nsec: v.void_after.1 },
+            v.bound,
+            v.drift,
+            0,
+            status_of(v.status),
+        );
+        self.writer.write(&ceb);
+        clock::fixed::set(v.real, v.mono);
+        let client = &mut self.client;
+        match catch_unwind(AssertUnwindSafe(|| client.now())) {
+            Ok(Ok(r)) => Outcome::Ok {
+                earliest: (r.earliest.tv_sec(), r.earliest.tv_nsec()),
+                latest: (r.latest.tv_sec(), r.latest.tv_nsec()),
+                status: status_num(r.clock_status),
+            },
+            Ok(Err(e)) => Outcome::Err {
+                kind: match e.kind {
+                    ClockBoundErrorKind::Syscall => "Syscall",
+                    ClockBoundErrorKind::SegmentNotInitialized => "SegmentNotInitialized",
+                    ClockBoundErrorKind::SegmentMalformed => "SegmentMalformed",
+                    ClockBoundErrorKind::CausalityBreach => "CausalityBreach",
+                }
+                .to_string(),
+                errno: e.errno.0,
+                detail: e.detail.clone(),
+            },
+            Err(p) => {
+                let msg = if let Some(s) = p.downcast_ref::<&str>() { s.to_string() } else if let Some(s) = p.downcast_ref::<String>() { s.clone() } else { "?".to_string() };
+                Outcome::Panic(msg)
+            }
+        }
+    }
+}
+
+impl Drop for Rig {
+    fn drop(&mut self) {
+        let _ = std::fs::remove_dir_all(&self.dir);
+    }
+}
+
+fn kind_name(k: &ClockBoundErrorKind) -> &'static str {
+    match k {
+        ClockBoundErrorKind::Syscall => "Syscall",
+        ClockBoundErrorKind::SegmentNotInitialized => "SegmentNotInitialized",
+        ClockBoundErrorKind::SegmentMalformed => "SegmentMalformed",
+        ClockBoundErrorKind::CausalityBreach => "CausalityBreach",
+    }
+}
+
+fn main() {
+    let args = parse_args();
+    let mode = args.get("_").cloned().unwrap_or_default();
+    let prop = arg_str(&args, "prop", "C05");
+    let seed = arg_u64(&args, "seed", 1);
+    let count = arg_u64(&args, "count", 1000);
+    let shard_s = arg_str(&args, "shard", "0/1");
+    let (shard, nshards): (u64, u64) = {
+        let mut it = shard_s.split('/');
+        (it.next().unwrap().parse().unwrap(), it.next().unwrap().parse().unwrap())
+    };
+    let replay_dir = arg_str(&args, "replays", "/verif/replays");
+    let dump = arg_str(&args, "dump", "");
+    let t0 = clock::real_clock_ns(libc::CLOCK_MONOTONIC);
+    std::panic::set_hook(Box::new(|_| {}));
+
+    let mut dump_file = if dump.is_empty() { None } else { Some(std::io::BufWriter::new(std::fs::File::create(&dump).unwrap())) };
+
+    if mode == "openlist" {
+        // One line per path: outcome of opening it through the Rust client and through ShmReader.
+        let list = std::fs::read_to_string(arg_str(&args, "list", "")).expect("--list");
+        for path in list.lines().filter(|l| !l.is_empty()) {
+            let via_client = match catch_unwind(AssertUnwindSafe(|| ClockBoundClient::new_with_path(path).map(|_| ()))) {
+                Ok(Ok(())) => "OPENED".to_string(),
+                Ok(Err(e)) => format!("ERR {} {} {}", kind_name(&e.kind), e.errno.0, if e.detail.is_empty() { "-" } else { &e.detail }),
+                Err(_) => "PANIC".to_string(),
+            };
+            let cpath = std::ffi::CString::new(path).unwrap();
+            let via_reader = match catch_unwind(AssertUnwindSafe(|| clock_bound_shm::ShmReader::new(&cpath).map(|_| ()))) {
+                Ok(Ok(())) => "OPENED".to_string(),
+                Ok(Err(e)) => match e {
+                    clock_bound_shm::ShmError::SyscallError(errno, detail) => format!("ERR Syscall {} {}", errno.0, detail.to_str().unwrap_or("?")),
+                    clock_bound_shm::ShmError::SegmentNotInitialized => "ERR SegmentNotInitialized 0 -".to_string(),
+                    clock_bound_shm::ShmError::SegmentMalformed => "ERR SegmentMalformed 0 -".to_string(),
+                    clock_bound_shm::ShmError::CausalityBreach => "ERR CausalityBreach 0 -".to_string(),
+                },
+                Err(_) => "PANIC".to_string(),
+            };
+            println!("{} || {}", via_client, via_reader);
+        }
+        return;
+    }
+
+    if mode == "repair" {
+        // Daemon start-up and first publication over pre-existing files; what new clients then read.
+        use clock_bound_shm::ShmReader;
+        use std::os::unix::fs::MetadataExt;
+        use std::os::unix::io::AsRawFd;
+        let list = std::fs::read_to_string(arg_str(&args, "list", "")).expect("--list");
+        for (i, path) in list.lines().filter(|l| !l.is_empty()).enumerate() {
+            let i = i as i64;
+            let rec = ClockErrorBound::new(
+                libc::timespec { tv_sec: 1000 + i, tv_nsec: 5 },
+                libc::timespec { tv_sec: 2000 + i, tv_nsec: 0 },
+                777 + i,
+                50_000,
+                0,
+                ClockStatus::Synchronized,
+            );
+            let ino_before = std::fs::metadata(path).map(|m| m.ino()).unwrap_or(0);
+            let cpath = std::ffi::CString::new(path).unwrap();
+            let read_back = |tag: &str| -> String {
+                match catch_unwind(AssertUnwindSafe(|| match ShmReader::new(&cpath) {
+                    Ok(mut r) => match r.snapshot() {
+                        Ok(c) => {
+                            if *c == rec { "same".to_string() } else { format!("differs:{:?}", c).replace(' ', "") }
+                        }
+                        Err(e) => format!("snapshot-err:{:?}", e).replace(' ', ""),
+                    },
+                    Err(e) => format!("open-err:{:?}", e).replace(' ', ""),
+                })) {
+                    Ok(s) => format!("{}={}", tag, s),
+                    Err(_) => format!("{}=panic", tag),
+                }
+            };
+            let started = catch_unwind(AssertUnwindSafe(|| ShmWriter::new(std::path::Path::new(path))));
+            let mut w = match started {
+                Ok(Ok(w)) => w,
+                Ok(Err(e)) => {
+                    println!("NEWERR {}", format!("{}", e).replace(' ', "_"));
+                    continue;
+                }
+                Err(_) => {
+                    println!("NEWPANIC");
+                    continue;
+                }
+            };
+            w.write(&rec);
+            let a = read_back("A");
+            drop(w);
+            // "The daemon died and a client starts later": nothing keeps the pages in memory.
+            let mut evicted = "no";
+            if let Ok(f) = std::fs::OpenOptions::new().read(true).write(true).open(path) {
+                let _ = f.sync_all();
+                let rc = unsafe { libc::posix_fadvise(f.as_raw_fd(), 0, 0, libc::POSIX_FADV_DONTNEED) };
+                evicted = if rc == 0 { "asked" } else { "refused" };
+            }
+            let b = read_back("B");
+            let meta = std::fs::metadata(path);
+            let (ino_after, len) = meta.map(|m| (m.ino(), m.len())).unwrap_or((0, 0));
+            let bytes = std::fs::read(path).unwrap_or_default();
+            let hex: String = bytes.iter().take(96).map(|b| format!("{:02x}", b)).collect();
+            println!("DONE {} {} ino_same={} len={} evict={} hex={} rec={},{},{},{},{},{},{}", a, b, (ino_before != 0 && ino_before == ino_after) as i32, len, evicted, hex,
+                     1000 + i, 5, 2000 + i, 0, 777 + i, 50_000, 1);
+        }
+        return;
+    }
+
+    if mode == "layout" {
+        // Records written by the real ShmWriter, and the bytes the file then holds.
+        let dir = PathBuf::from(format!("/dev/shm/cbverif-layout.{}", std::process::id()));
+        std::fs::create_dir_all(&dir).unwrap();
+        let path = dir.join("shm");
+        let mut writer = ShmWriter::new(&path).expect("ShmWriter::new");
+        let mut rng = Rng::new(seed ^ 0x1A70);
+        let f = dump_file.as_mut().expect("--dump");
+        for _ in 0..count {
+            let v = &generate("C17", &mut rng)[0];
+            let reserved = rng.next() as u32;
+            let ceb = ClockErrorBound::new(
+                libc::timespec { tv_sec: v.as_of.0, tv_nsec: v.as_of.1 },
+                libc::timespec { tv_sec: v.void_after.0, tv_nsec: v.void_after.1 },
+                v.bound,
+                v.drift,
+                reserved,
+                status_of(v.status),
+            );
+            writer.write(&ceb);
+            let bytes = std::fs::read(&path).unwrap();
+            let hex: String = bytes.iter().map(|b| format!("{:02x}", b)).collect();
+            writeln!(f, "{} {} {} {} {} {} {} {} {}", v.as_of.0, v.as_of.1, v.void_after.0, v.void_after.1, v.bound, v.drift, reserved, v.status, hex).unwrap();
+        }
+        drop(writer);
+        let _ = std::fs::remove_dir_all(&dir);
+        return;
+    }
+
+    if mode == "vectors" {
+        // Only generate (for the C driver).
+        let mut rng = Rng::new(seed ^ 0xC0FFEE);
+        let f = dump_file.as_mut().expect("--dump");
+        let mut n = 0;
+        while n < count {
+            for v in generate(&prop, &mut rng) {
+                writeln!(f, "{}", v.line()).unwrap();
+                n += 1;
+            }
+        }
+        return;
+    }
+
+    clock::fixed::install();
+    let mut rig = Rig::new();
+    let mut cells: BTreeMap<String, u64> = BTreeMap::new();
+    let mut outcomes: BTreeMap<String, u64> = BTreeMap::new();
+    let mut violations: Vec<Value> = Vec::new();
+    let mut evaluations = 0u64;
+    let mut distinct = std::collections::HashSet::new();
+    let mut samples: Vec<Value> = Vec::new();
+    let mut chain_checks = 0u64;
+
+    if mode == "replay" {
+        let v: Value = vworld::serde_json::from_str(&std::fs::read_to_string(arg_str(&args, "file", "")).unwrap()).unwrap();
+        let x = &v["vector"];
+        let p2 = |k: &str| (x[k][0].as_i64().unwrap(), x[k][1].as_i64().unwrap());
+        let vec = Vector { as_of: p2("as_of"), void_after: p2("void_after"), bound: x["bound_nsec"].as_i64().unwrap(), drift: x["max_drift_ppb"].as_u64().unwrap() as u32,
+                           status: x["status"].as_i64().unwrap() as i32, real: p2("real"), mono: p2("mono"), kind: "replay" };
+        let o = rig.eval(&vec);
+        let bad = oracle(&vec, &o);
+        println!("{}", vworld::serde_json::to_string_pretty(&json!({"vector": vec.to_json(), "outcome": o.line(), "violations": bad.iter().map(|b| json!({"property": b.0, "sig": b.1, "detail": b.2})).collect::<Vec<_>>()})).unwrap());
+        return;
+    }
+
+    let mut k = shard;
+    while k < count {
+        let mut rng = Rng::new(Rng::new(seed.wrapping_mul(0x2545_F491).wrapping_add(k)).next());
+        let group = generate(&prop, &mut rng);
+        let mut prev_h: Option<(i128, i128)> = None;
+        for v in group.iter() {
+            let o = rig.eval(v);
+            evaluations += 1;
+            *cells.entry(v.kind.to_string()).or_insert(0) += 1;
+            let okind = match &o {
+                Outcome::Ok { status, .. } => format!("ok-status{}", status),
+                Outcome::Err { kind, .. } => format!("err-{}", kind),
+                Outcome::Panic(_) => "panic".to_string(),
+            };
+            *outcomes.entry(okind).or_insert(0) += 1;
+            distinct.insert(v.line());
+            if let Some(f) = dump_file.as_mut() {
+                writeln!(f, "{} | {}", v.line(), o.line()).unwrap();
+            }
+            let mut bad = oracle(v, &o);
+            // C05: the half-width never shrinks as the same record gets older.
+            if let Outcome::Ok { latest, .. } = &o {
+                let h = ns(*latest) - ns(v.real);
+                let m = ns(v.mono);
+                if v.kind == "chain" {
+                    if let Some((pm, ph)) = prev_h {
+                        chain_checks += 1;
+                        if m >= pm && h < ph {
+                            bad.push(("C05", "shrinks-with-age".to_string(), format!("half-width {} at mono {} is smaller than {} at the earlier mono {}", h, m, ph, pm)));
+                        }
+                    }
+                }
+                prev_h = Some((m, h));
+            } else {
+                prev_h = None;
+            }
+            for (p, sig, text) in bad {
+                if p != prop && !(prop == "C05" && p == "C14" && sig == "panic") {
+                    continue;
+                }
+                if violations.len() < 20 {
+                    let rp = format!("{}/{}-client-{}-{}-{}.json", replay_dir, prop, seed, k, violations.len());
+                    vworld::write_json(&rp, &json!({"property": prop, "engine": "clientsim", "vector": v.to_json(), "outcome": o.line(), "sig": sig, "detail": text}));
+                    violations.push(json!({"sig": sig, "detail": format!("{} [vector {}]", text, v.line()), "replay": rp}));
+                }
+            }
+            if samples.len() < 3 && evaluations % 997 == 1 {
+                samples.push(json!({"vector": v.to_json(), "outcome": o.line()}));
+            }
+        }
+        k += nshards;
+    }
+    drop(rig);
+    let out = json!({
+        "evaluations": evaluations, "distinct": distinct.len(), "cells": cells, "outcomes": outcomes, "chain_checks": chain_checks,
+        "violations": violations, "samples": samples, "virtual_clock_reads": clock::virtual_reads(),
+        "wall_s": (clock::real_clock_ns(libc::CLOCK_MONOTONIC) - t0) as f64 / 1e9,
+    });
+    let outp = arg_str(&args, "out", "");
+    if outp.is_empty() {
+        println!("{}", vworld::serde_json::to_string_pretty(&out).unwrap());
+    } else {
+        vworld::write_json(&outp, &out);
+    }
+}
